@@ -956,7 +956,9 @@ func (g *gen) specCall(e *env, n *ast.CallExpr, want string, c *Clause) T {
 			return T{S: sx("select", sx("select", e.comp(hc), m.S), k.S), Sort: sBool}
 		}
 		_, sg := g.sortOf(mt.Elem())
-		return T{S: sx("select", sx("select", e.comp(vc), m.S), k.S), Sort: vs, Signed: sg, GoT: mt.Elem()}
+		// as the Go lookup m[k]: the zero value for an absent key
+		has := sx("select", sx("select", e.comp(hc), m.S), k.S)
+		return T{S: sx("ite", has, sx("select", sx("select", e.comp(vc), m.S), k.S), g.zeroOfSort(vs, mt.Elem())), Sort: vs, Signed: sg, GoT: mt.Elem()}
 	case "sameslice":
 		a, b := arg(0, sSlice), arg(1, sSlice)
 		return T{S: sx("=", a.S, b.S), Sort: sBool}
